@@ -1,5 +1,6 @@
 import RedactVerif.Props.C01
 import RedactVerif.Props.FactsReset
+import RedactVerif.Props.FactsSkelBuffer
 /-
 C13 — buffer accessors are pure; Reset and Take return to a pristine buffer.
 
